@@ -430,6 +430,28 @@ pub fn c17(tier: Tier) -> i32 {
     let (acc, sizes) = run_family(&C17, tier);
     absorb_family(&mut rep, acc, sizes, t0);
     value_trees(&mut rep, tier);
+    // the insertion-ordered configuration: the same value-tree enumeration (every insertion order really is a different
+    // map there) and the parse -> print -> parse battery, run by the cfg engine's binary built with `preserve_order`
+    {
+        let t0 = std::time::Instant::now();
+        match crate::c18::build("tm-preserve", "tm_parse tm_display tm_preserve").and_then(|exe| crate::c18::run("tm-preserve", &exe)) {
+            Err(e) => {
+                println!("MACHINERY-ERROR preserve_order build of the value-tree enumeration failed: {}", e.lines().last().unwrap_or(""));
+                return 2;
+            }
+            Ok(r) => {
+                let n = r.counts.get("tm.valuetree.decoded-sorted").copied().unwrap_or(0) + r.counts.get("tm.print.decoded-sorted").copied().unwrap_or(0);
+                let mut acc = Acc::default();
+                acc.evals = n;
+                acc.nontrivial_overflow = n;
+                acc.sample(|| "toml::Table[preserve_order]: insertion order [c, a, b] x kinds [table, scalar, array of tables]: to_string / to_string_pretty / Display valid, decode equal (canonical form and ==), fixed point".to_string());
+                for v in r.viols.iter().filter(|v| !v.contains("toml::Map history")) {
+                    acc.viol("U-value-tree", format!("toml::Table[preserve_order]: {}", v.chars().take(240).collect::<String>()), None, v.clone());
+                }
+                rep.absorb("U-value-tree(preserve_order)", &format!("{} trees / documents printed and re-parsed in the preserve_order build (value trees: 7 kinds ^ 3 keys x 6 insertion orders x 2 depths; documents: the C18 battery)", n), n, true, t0, acc);
+            }
+        }
+    }
     rep.finish()
 }
 
